@@ -55,5 +55,11 @@ def gen(seed, tier, scale):
             c.parent.children.remove(c)
             t.children.append(c)
             c.parent = t
-        yield idx, ra_case(t, "random")
+        if rng.random() < 0.15:
+            # trees other transformations (and the readers) have produced are trees like any other
+            import history
+            t, _ = history.pretransformed(rng, t, allowed=["add_topnode", "binarize", "collapse+uncollapse", "punctuation_root", "split+raise"])
+            yield idx, ra_case(t, "pretransformed")
+        else:
+            yield idx, ra_case(t, "random")
         idx += 1
